@@ -428,8 +428,8 @@ impl ArrayLike for ReverseArray {
 
 #[derive(Trace, Clone, Debug)]
 pub enum ArrayMapper {
-	Plain(NativeFn!((Val) -> Val)),
-	WithIndex(NativeFn!((u32, Val) -> Val)),
+	Plain(NativeFn!((Thunk<Val>) -> Val)),
+	WithIndex(NativeFn!((u32, Thunk<Val>) -> Val)),
 }
 
 #[derive(Trace, Debug, Clone)]
@@ -447,7 +447,7 @@ impl MappedArray {
 			mapper,
 		}
 	}
-	fn evaluate(&self, index: usize, value: Val) -> Result<Val> {
+	fn evaluate(&self, index: usize, value: Thunk<Val>) -> Result<Val> {
 		match &self.mapper {
 			ArrayMapper::Plain(f) => f.call(value),
 			ArrayMapper::WithIndex(f) => f.call(index as u32, value),
@@ -476,12 +476,7 @@ impl ArrayLike for MappedArray {
 			unreachable!()
 		};
 
-		let val = self
-			.inner
-			.get(index)
-			.transpose()
-			.expect("index checked")
-			.and_then(|r| self.evaluate(index, r));
+		let val = self.evaluate(index, self.inner.get_lazy(index).expect("index checked"));
 
 		let new_value = match val {
 			Ok(v) => v,
